@@ -1831,7 +1831,7 @@ pub fn gen(tier: &str, seed: u64, out: &mut dyn Write) {
     let scratch: PathBuf = scratch_root().join("c05");
     std::fs::create_dir_all(&scratch).unwrap();
     let mut rng = Rng::new(seed);
-    let (n_n2i, n_i2n) = if tier == "thorough" { (12_000, 12_000) } else { (450, 450) };
+    let (n_n2i, n_i2n) = if tier == "thorough" { (12_000, 12_000) } else { (750, 750) };
     let batch = 150;
     // ---- norad writes, the independent reader reads
     let mut todo = n_n2i;
